@@ -1,6 +1,6 @@
 (* C11 — property theorems only.  Each is closed by `exact` of a lemma of C11_Proofs.v / C11_LoudsProofs.v. *)
 From Coq Require Import List NArith Bool.
-From Dae Require Import C11_Spec C11_Model C11_Louds C11_Proofs C11_LoudsProofs C11_BitlistProofs C11_Layer3.
+From Dae Require Import C11_Spec C11_Model C11_Louds C11_Proofs C11_LoudsProofs C11_BitlistProofs C11_PackedProofs C11_Layer3.
 From Dae.gen Require Import C11_Extracted.
 Import ListNotations.
 Open Scope N_scope.
@@ -153,10 +153,41 @@ Example C11_compact_bitlist_nonvacuous :
   end = [63; 1; 42; 0; 21; 0].
 Proof. exact bitlist_nonvacuous. Qed.
 
-(* OPEN obligation (stated, not proved, nothing admitted; tied to the code by the differential runs of
-   every check: stored words / labels / rank and select samples and every HasPrefix answer of the real
-   trie are compared with these functions): the packed representation (64-bit words, rank samples per
-   word, select samples per 64 ones, all held in CompactBitLists) answers like the logical one. *)
-Definition C11_packed_correct_open : Prop :=
-  forall chars keys w L, NoDup chars -> (length chars <= 256)%nat -> keys <> [] ->
-    l_new chars keys = Some L -> p_has chars (pack_louds chars L) w = l_has chars L w.
+(* Layer 3, packed representation (proved): the trie exactly as pkg/trie stores it — bitmaps in 64-bit
+   words, rank samples per word, select samples per 64 ones, labels and both sample arrays inside
+   CompactBitLists, HasPrefix with countZeros / selectIthOne — answers "some key is a prefix of the word",
+   for every alphabet without repetition, every non-empty key list and every word.  The one premise is a
+   size bound: total key bytes below 2^63, so that the label bitmap has fewer than 2^64 bits and the
+   sample arrays fit the 64-bit unit width (the model's integers are unbounded; Go's int32 samples impose
+   a smaller limit that is outside the model). *)
+Theorem C11_packed_correct :
+  forall chars keys w t, NoDup chars -> (length chars <= 256)%nat -> keys <> [] ->
+    (2 * N.of_nat (wt keys) + 1 < 2 ^ 64) ->
+    p_new chars keys = Some t -> p_has chars t w = has_prefix keys w.
+Proof. exact packed_has_prefix. Qed.
+Print Assumptions C11_packed_correct.
+
+Example C11_packed_nonvacuous :
+  match p_new [48;49] [[48]; [48;49]; [49;49;48]; [48]] with
+  | Some t => map (p_has [48;49] t) [[48;49;49]; [49]; [49;49]; [49;49;48;49]; []; [49;50]]
+  | None => []
+  end = [true; false; false; true; false; false].
+Proof. exact packed_has_prefix_nonvacuous. Qed.
+
+(* End to end: the matcher over the packed trie (every layer of the model that the harness compares with
+   the Go code) equals the spec, for all collections of sets without an empty keyword whose keys per bit
+   index respect the size bound. *)
+Theorem C11_matcher_packed_partial : forall rx_ok rx sets names idxs,
+  kw_nonempty sets = true -> forallb name_ok names = true -> sets_size_ok sets ->
+  model_answer_packed rx_ok rx sets names idxs = spec_answer rx_ok rx sets names idxs.
+Proof. exact matcher_packed_partial. Qed.
+Print Assumptions C11_matcher_packed_partial.
+
+Example C11_matcher_packed_nonvacuous :
+  kw_nonempty ex_sets = true /\ forallb name_ok ex_names = true /\
+  model_answer_packed (fun _ => true) (fun _ _ => false) ex_sets ex_names [3; 32; 1023; 5]
+  = Some [[3; 32; 1023]; [3; 1023]; [1023]; [3; 1023]; [3; 1023]; [3]; []].
+Proof. exact matcher_packed_nonvacuous. Qed.
+
+Example C11_matcher_packed_size_nonvacuous : sets_size_ok ex_sets.
+Proof. exact ex_sets_size_ok. Qed.
